@@ -6,6 +6,7 @@ import (
 	"encoding/binary"
 	"encoding/json"
 	"fmt"
+	"github.com/google/uuid"
 	"math/rand"
 	"runtime"
 	"sync"
@@ -197,7 +198,19 @@ func playerListScenario(seed int64, id int) []map[string]any {
 				return
 			default:
 			}
-			log.add(map[string]any{"k": "sample", "n": pl.Len()})
+			// the status handler's view: every reading of the size (all of them take the list's lock)
+			n := 0
+			switch i % 4 {
+			case 0:
+				n = pl.Len()
+			case 1:
+				n = pl.OnlinePlayer()
+			case 2:
+				n = len(pl.PlayerSamples()) // up to 10 entries; the capacities used here are below that
+			default:
+				pl.Range(func(server.PlayerListClient, server.PlayerSample) { n++ })
+			}
+			log.add(map[string]any{"k": "sample", "n": n})
 			runtime.Gosched()
 		}
 	}()
@@ -225,8 +238,26 @@ func playerListScenario(seed int64, id int) []map[string]any {
 					pl.ClientLeft(c)
 					log.add(map[string]any{"k": "end", "g": g, "r": 0})
 				default:
+					if r.Intn(3) == 0 { // the login checker's question: is there room?
+						log.add(map[string]any{"k": "start", "g": g, "op": "check", "c": 0})
+						ok, _ := pl.CheckPlayer(fmt.Sprint(c.id), uuid.UUID{}, 767)
+						res := 0
+						if ok {
+							res = 1
+						}
+						log.add(map[string]any{"k": "end", "g": g, "r": res})
+						break
+					}
 					log.add(map[string]any{"k": "start", "g": g, "op": "len", "c": 0})
-					n := pl.Len()
+					n := 0
+					switch r.Intn(3) {
+					case 0:
+						n = pl.Len()
+					case 1:
+						n = pl.OnlinePlayer()
+					default:
+						n = len(pl.PlayerSamples())
+					}
 					log.add(map[string]any{"k": "end", "g": g, "r": n})
 				}
 				if r.Intn(2) == 0 {
